@@ -241,10 +241,11 @@ def popIdent : WM Ident := do
   | none => WM.fail ⟨tok, [.ident]⟩
   | some t => pure ⟨t, t.lit, ⟨t.start, t.end_⟩⟩
 
-/-- `NewReference(idents)`: `idents[0]` and `idents[len-1]` -/
-def newReference : List Ident → Option Reference
-  | [] => none
-  | i :: is => some ⟨i :: is, ⟨i.span.start, ((i :: is).getLast (by simp)).span.end_⟩⟩
+/-- `NewReference(idents)`: `idents[0]` and `idents[len-1]` (`none` = index out of range) -/
+def newReference (idents : List Ident) : Option Reference :=
+  match idents.head?, idents.getLast? with
+  | some f, some l => some ⟨idents, ⟨f.span.start, l.span.end_⟩⟩
+  | _, _ => none
 
 /-- the loop of `popReference()`; structural over the token list: each round reads an ident and,
 if a `.` follows, the dot.  `w` is threaded by hand because the recursion is on `w.rest`. -/
